@@ -320,6 +320,11 @@ class C18(Check):
 
             self.audit(t, rule, viol, acc)
             if t.ok():
+                missing = [k for k in ('title', 'rule_name', 'method', 'arithmetic_name', 'seats', 'nballots', 'quota', 'cids', 'ecids', 'cdict', 'options')
+                           if k not in t.E.record()]
+                if missing:
+                    viol0('record-header-missing', 'the record of a completed count lacks %s' % missing)
+                j0 = t.E.json()
                 self.render_json(t, viol0)
                 self.render_dump(t, rule, viol0)
                 self.render_report(t, rule, viol0)
@@ -327,6 +332,8 @@ class C18(Check):
                 d1 = t.E.dump()
                 if t.E.dump() != d1:
                     viol0('dump-not-repeatable', 'dump() of the same election differs on the second call')
+                if t.E.json() != j0:
+                    viol0('json-changes-after-rendering', 'json() before and after report()/dump() differ')
                 if acc.evaluations % 3 == 0:
                     r1, j1 = t.E.report(), t.E.json()
                     if t.E.report() != r1 or t.E.json() != j1 or t.E.dump() != d1:
